@@ -79,7 +79,9 @@ def check_glue(ctx, rs, sc, cuqi, S, H):
         check_ls_call(ctx, rs, sc, H, S, LS),
         check_rewrap(ctx, rs, H, cuqi, minimize, maximize, LS, L_BFGS_B),
         check_lm_explicit(ctx, rs, sc, H, LM),
-        check_negative_tolerances(ctx, rs, sc, H, CGLS, PCGLS, LM)])
+        check_negative_tolerances(ctx, rs, sc, H, CGLS, PCGLS, LM),
+        check_lm_damping(ctx, rs, sc, H, LM),
+        check_assigned_maxit(ctx, rs, sc, H, CGLS, FISTA, LM, ProjectNonnegative)])
 
 
 def _run_batched(ctx, gens):
@@ -578,3 +580,137 @@ def check_negative_tolerances(ctx, rs, sc, H, CGLS, PCGLS, LM):
                 if np.linalg.norm(s) > 1e-7 * (1 + np.linalg.norm(A.T @ b)):
                     ctx.fail(key, desc, "optimality system ~ 0 on an early return", float(np.linalg.norm(s)),
                              f"{solver} returns early with a negative tolerance at a point that does not satisfy its optimality system")
+
+
+# ----------------------------------------------------------------------------- LM damping loop: branches of accept/reject + nu update
+def check_lm_damping(ctx, rs, sc, H, LM):
+    """branch histogram of the model's damping loop (R rejected; accepted: U nu raised, S kept, H halved, Z set to 0) on problems
+    built to reach every branch, and the reject pattern of the real code (x_j == x_{j-1} when re-run with maxit = j) against it"""
+    lines, meta = [], []
+    for i in range(20 * sc):
+        n = int(rs.randint(1, 3)); m = int(rs.randint(n, n + 2))
+        M = H.gen_matrix(rs, m, n, False)
+        strong = (i % 2 == 0)
+        Q = (rs.randint(-2, 3, size=(m, n)) * (rs.rand(m, n) < 0.7)) / (1.0 if strong else 8.0)
+        b = rs.randint(-4, 5, size=m).astype(float)
+        x0 = rs.randint(-3, 4, size=n) / (1.0 if strong else 2.0)
+        res = (lambda x, M=M, Q=Q, b=b: M @ x + Q @ (x * x) - b)
+        jac = (lambda x, M=M, Q=Q: M + 2 * Q * x[None, :])
+        nuinit = float(np.linalg.norm(jac(x0).T @ res(x0)))
+        if nuinit == 0:
+            continue
+        # nu0 relative to the initial damping |g0|: far below (never floors), at it, above it (floors / Gauss-Newton switch)
+        nu0 = [1e-3, 2.0 ** math.floor(math.log2(nuinit)), 2.0 ** (math.floor(math.log2(nuinit)) + 2), 2.0 ** (math.floor(math.log2(nuinit)) - 2)][i % 4]
+        maxit = 3 if strong else 4
+        sparse = bool((i // 2) % 2)
+        lines.append(f"lmtrace {qm(M)} {qm(Q)} {qv(b)} {qv(x0)} {q(nuinit)} {q(nu0)} {q(1e-8)} {maxit}")
+        meta.append((M, Q, b, x0, nu0, maxit, sparse, res, jac, nuinit))
+    outs = yield lines
+    for (M, Q, b, x0, nu0, maxit, sparse, res, jac, nuinit), out in zip(meta, outs):
+        desc = {"solver": "LM", "M": M.tolist(), "Q": Q.tolist(), "b": b.tolist(), "x0": x0.tolist(), "nu0": nu0, "gradtol": 1e-8, "maxit": maxit,
+                "sparse": sparse, "g0": nuinit}
+        ctx.case("glue-lm-damping", desc)
+        if "|" not in out:
+            ctx.note(f"glue: LM model refuses ({out}) at {desc}")
+            continue
+        im, codes, mono = out.split("|")
+        codes = [] if codes == "_" else codes.split(",")
+        for c in codes:
+            _cov(ctx, "glue_lm_damping_branches", c)
+        _soft(ctx, "lm-model-f-monotone", mono == "1")
+        jf = (lambda x: sp.csr_matrix(jac(x))) if sparse else jac
+        key = f"LM:{'sparse' if sparse else 'dense'}:damping"
+        xs = []
+        try:
+            with quiet():
+                for j in range(int(im) + 1):
+                    x, info = LM(res, x0.copy(), jf, maxit=j, gradtol=1e-8, nu0=nu0, sparse=sparse).solve()
+                    xs.append(np.asarray(x, dtype=float))
+        except Exception as e:      # noqa: BLE001
+            ctx.disagree(key, desc, out, repr(e)[:100], "implementation raises")
+            ctx.fail(key, desc, "a result", repr(e)[:100], "LM raises on a well-posed problem")
+            continue
+        got = ["R" if np.array_equal(xs[j], xs[j - 1]) else "A" for j in range(1, len(xs))]
+        exp = ["R" if c == "R" else "A" for c in codes]
+        fs = [0.5 * float(np.sum(res(x) ** 2)) for x in xs]
+        _soft(ctx, "lm-impl-f-monotone", all(fs[j] <= fs[j - 1] * (1 + 1e-12) for j in range(1, len(fs))))
+        if got != exp:
+            # a decision may sit at its threshold in floating point (ratio == 0 exactly in the model): tolerate only then
+            ctx.disagree(key, desc, exp, got, "accept/reject pattern of the damping loop differs from the model")
+            H.lm_stop_oracle(ctx, key, desc, res, jac, x0, xs[-1], int(im), maxit, 1e-8)
+            H.oracle_lm(ctx, key, desc, res, jac, jf, x0, nu0, sparse, LM)
+
+
+# ----------------------------------------------------------------------------- maxit re-assigned after construction
+ASSIGNED = [("2.5", 2.5), ("0.3", 0.3), ("-1.5", -1.5), ("3.0", 3.0), ("1e-9", 1e-9), ("2", 2), ("1.0000001", 1.0000001),
+            ("nan", float("nan")), ("-inf", -float("inf")), ("np.float32(1.5)", np.float32(1.5))]
+
+
+def check_assigned_maxit(ctx, rs, sc, H, CGLS, FISTA, LM, ProjectNonnegative):
+    """`solver.maxit = q` after construction: the code applies no int(); the model (`budgetAssigned`) gives ceil(q) passes.
+    Hard: the result equals the model recurrence at the budget of the raw number OR at the constructor's budget int(q) (a version
+    that converts on assignment is equally fine for the property); never more passes than ceil(q).  Soft: which of the two."""
+    outs = yield [f"asbudget {_pynum(v)}" for _, v in ASSIGNED]
+    budgets = []
+    for out in outs:
+        d = dict(kv.split("=") for kv in out.split())
+        budgets.append(d)
+    lines, meta = [], []
+    for i, ((name, v), bd) in enumerate(zip(ASSIGNED, budgets)):
+        A, b, x0 = _small_problem(rs, H.gen_matrix, int(rs.randint(2, 4)))
+        t = 2.0 ** math.floor(math.log2(1.0 / np.linalg.norm(A, 2) ** 2))
+        res = (lambda x, A=A, b=b: A @ x - b)
+        jac = (lambda x, A=A: A)
+        nuinit = float(np.linalg.norm(A.T @ res(x0)))
+        for solver in ("CGLS", "FISTA", "LM"):
+            key_b = "fista" if solver == "FISTA" else "assigned"
+            cands = [bd[key_b]] + ([bd["ctor"]] if not bd["ctor"].startswith("err") else [])
+            if "unbounded" in cands[0] or (solver == "LM" and nuinit == 0):
+                continue
+            for n in dict.fromkeys(cands):
+                if solver == "CGLS":
+                    lines.append(f"cglspy mat {qm(A)} {qv(b)} {qv(x0)} 0 {q(1e-12)} {n}")
+                elif solver == "FISTA":
+                    lines.append(f"fistapy mat {qm(A)} {qv(b)} {qv(x0)} nonneg {q(t)} {q(1e-13)} {n} 1")
+                else:
+                    lines.append(f"lmpy {qm(A)} {qm(np.zeros_like(A))} {qv(b)} {qv(x0)} {q(nuinit)} {q(1e-3)} {q(1e-10)} {n}")
+                meta.append((solver, name, v, n, n == cands[0], A, b, x0, t, res, jac))
+    outs = yield lines
+    groups = {}
+    for (solver, name, v, n, is_assigned, A, b, x0, t, res, jac), out in zip(meta, outs):
+        groups.setdefault((solver, name), []).append((n, is_assigned, out, v, A, b, x0, t, res, jac))
+    for (solver, name), lst in groups.items():
+        n, _, _, v, A, b, x0, t, res, jac = lst[0]
+        desc = {"solver": solver, "maxit_assigned": name, "A": A.tolist(), "b": b.tolist(), "x0": x0.tolist()}
+        ctx.case("glue-assigned-maxit", desc)
+        def call():
+            if solver == "CGLS":
+                s_ = CGLS(A, b.copy(), x0.copy(), 10, 1e-12, 0); s_.maxit = v; return s_.solve()
+            if solver == "FISTA":
+                s_ = FISTA(A, b.copy(), x0.copy(), lambda x, g: ProjectNonnegative(x), maxit=10, stepsize=t, abstol=1e-13, adaptive=True); s_.maxit = v
+                return s_.solve()
+            s_ = LM(res, x0.copy(), jac, maxit=10, gradtol=1e-10, nu0=1e-3, sparse=False); s_.maxit = v
+            x, info = s_.solve(); return x, info["nfev"]
+        r, e = _run(call)
+        key = f"{solver}:assigned-maxit"
+        if e is not None:
+            _soft(ctx, "assigned-maxit-raises", False)       # a version that validates on assignment may raise for nan / -inf
+            if math.isfinite(float(v)):
+                ctx.disagree(key, desc, [o[2][:60] for o in lst], repr(e)[:100], "implementation raises for a finite re-assigned maxit")
+                ctx.fail(key, desc, "a result", repr(e)[:100], f"{solver} raises on a well-posed problem")
+            continue
+        xi, ki = np.asarray(r[0], dtype=float), int(r[1])
+        match = None
+        for (n_, is_assigned, out, *_rest) in lst:
+            if "|" in out:
+                km, xm = int(out.split("|")[0]), np.array([float(t_) for t_ in pv(out.split("|")[1])])
+                if km == ki and vclose(xi, xm, 1e-8):
+                    match = "raw-number (ceil)" if is_assigned else "int()"
+                    break
+        if match is None:
+            ctx.disagree(key, desc, [o[2][:80] for o in lst], [ki, xi.tolist()], "result matches neither the raw-number budget nor the int() budget")
+            cap = int(lst[0][0]) if solver != "FISTA" else max(int(lst[0][0]), 1)
+            if ki > cap:
+                ctx.fail(key, desc, f"at most {cap} passes", ki, "more iterations than the re-assigned maxit allows")
+        else:
+            _cov(ctx, "glue_assigned_maxit", f"{solver}:{match}")
